@@ -122,7 +122,7 @@ PROPS = {
         assumptions=PROC_ASSUME['C17'],
     ),
     'C06': dict(
-        lean=['Props.C06'],
+        lean=['Props.C06', 'Props.C11Thr'],
         streams=['throttle'],
         rule='same schedules as C05 (five phase styles, base-recorder start/write/stop failures in 35% of cases, restarts in the middle of a trigger); '
              'non-trivial = at least one throttled event; distinct by op text',
